@@ -831,9 +831,10 @@ def gen_activation(ctx, rng, name):
     n = ctx.share(ctx.pick(720, 9600))
     for i in range(n):
         pk = ['default', 'a', 'a,x0', 'a,x0,y0', 'x0,y0'][i % 5]
-        a = float(np.round(10 ** rng.uniform(-1, 0.7), 3)) if 'a' in pk else 1
-        x0 = float(np.round(rng.uniform(-2, 2), 3)) if 'x0' in pk else 0
-        y0 = float(np.round(rng.uniform(-2, 2), 3)) if 'y0' in pk else 0
+        given = pk.split(',')
+        a = float(np.round(10 ** rng.uniform(-1, 0.7), 3)) if 'a' in given else 1
+        x0 = float(np.round(rng.uniform(-2, 2), 3)) if 'x0' in given else 0
+        y0 = float(np.round(rng.uniform(-2, 2), 3)) if 'y0' in given else 0
         shape = [(7,), (3, 4), (2, 3, 2), (1,)][i % 4]
         cls = f'params:{pk}'
         desc = {'a': a, 'x0': x0, 'y0': y0, 'shape': shape, 'sub': _subseed(rng)}
